@@ -6,11 +6,13 @@
    names    = table of distinct member names (byte strings)
    ops      = ((0 i) = AddNode(names[i]) | (1 i) = RemoveNode(names[i])) ...
    keys     = byte strings
-   observed = one entry per op, taken after the op: ((r_1 .. r_k) repeat_equal)
+   observed = one entry per op, taken after the op: ((r_1 .. r_k) repeat_equal cache_len cache_ok)
               r_j = index in `names` of GetNodeBy(key_j), -1 = the call panicked (empty
               ring), -2 = a string that is not in the table;
               repeat_equal = 1 iff a second round of the same lookups (made in reverse
               order) returned the same answers.
+              cache_len = len(sortedHash), cache_ok = 1 iff sortedHash is the sorted key
+              set of the circle map (verif probe).
    Before the first op the ring is empty: every lookup counts as -1. *)
 From Coq Require Import ZArith List Bool.
 From FV Require Import Lib.Sx C17.Model.
@@ -27,9 +29,10 @@ Definition bytes_of (s : sx) : option (list Z) :=
   match s with SBytes b => Some (map Z.of_N b) | _ => None end.
 Definition op_of (s : sx) : option (Z * Z) :=
   match s with SList [SInt o; SInt i] => Some (o, i) | _ => None end.
-Definition obs_of (s : sx) : option (list Z * Z) :=
+Definition obs_of (s : sx) : option (list Z * Z * (Z * Z)) :=
   match s with
-  | SList [l; SInt rep] => match sx_ints l with Some r => Some (r, rep) | None => None end
+  | SList [l; SInt rep; SInt cl; SInt cok] =>
+      match sx_ints l with Some r => Some (r, rep, (cl, cok)) | None => None end
   | _ => None
   end.
 
@@ -43,32 +46,38 @@ Fixpoint forall2b {A B} (f : A -> B -> bool) (a : list A) (b : list B) : bool :=
   end.
 
 (* model side: answers after every op *)
-Fixpoint model_obs (names : list name) (hs : list Z) (s : ring) (ops : list (Z * Z)) : list (list Z) :=
+Fixpoint model_obs (names : list name) (hs : list Z) (s : ring) (ops : list (Z * Z)) : list (list Z * Z) :=
   match ops with
   | [] => []
   | (o, i) :: r =>
       let n := nth (Z.to_nat i) names [] in
       let s' := if o =? 0 then add_node fnv1a n s else remove_node fnv1a n s in
-      map (fun h => match get_node_at h s' with
-                    | None => -1
-                    | Some m => index_of m names 0
-                    end) hs
+      (map (fun h => match get_node_at h s' with
+                     | None => -1
+                     | Some m => index_of m names 0
+                     end) hs,
+       Z.of_nat (length (sorted_hash s')))
       :: model_obs names hs s' r
   end.
 
-Fixpoint corr (m : list (list Z)) (obs : list (list Z * Z)) : verdict :=
+(* the cache is compared through its length; that it is the sorted key set of the map is a
+   theorem about the model (c17_cache_is_sorted_keys) and probed on the implementation *)
+Fixpoint corr (m : list (list Z * Z)) (obs : list (list Z * Z * (Z * Z))) : verdict :=
   match m, obs with
   | [], [] => VOk
-  | a :: m', (b, _) :: o' => if list_eqb Z.eqb a b then corr m' o' else VMismatch 1
+  | (a, cl) :: m', (b, _, (cl', cok)) :: o' =>
+      if negb (cok =? 1) then VMismatch 3
+      else if negb (cl =? cl') then VMismatch 2
+      else if list_eqb Z.eqb a b then corr m' o' else VMismatch 1
   | _, _ => VBad
   end.
 
 (* property side: the members are tracked as a plain set of table indices; nothing of the
    model is used *)
-Fixpoint prop (members prev : list Z) (ops : list (Z * Z)) (obs : list (list Z * Z)) : verdict :=
+Fixpoint prop (members prev : list Z) (ops : list (Z * Z)) (obs : list (list Z * Z * (Z * Z))) : verdict :=
   match ops, obs with
   | [], [] => VOk
-  | (o, x) :: ops', (cur, rep) :: obs' =>
+  | (o, x) :: ops', (cur, rep, _) :: obs' =>
       let was := zmem x members in
       let members' := if o =? 0 then (if was then members else x :: members)
                       else filter (fun y => negb (y =? x)) members in
@@ -93,7 +102,7 @@ Definition check (c : sx) : verdict :=
       match map_opt bytes_of names, map_opt op_of ops, map_opt bytes_of keys, map_opt obs_of obs with
       | Some names, Some ops, Some keys, Some obs =>
           let nk := length keys in
-          if forallb (fun ob => Nat.eqb (length (fst ob)) nk) obs
+          if forallb (fun ob => Nat.eqb (length (fst (fst ob))) nk) obs
              && forallb (fun o => (0 <=? snd o) && (snd o <? Z.of_nat (length names))
                                   && ((fst o =? 0) || (fst o =? 1))) ops
           then
